@@ -97,6 +97,47 @@ def gen_lines(ctx: Ctx, n: int) -> list[str]:
     return specials + out
 
 
+def digit_sweep(ctx: Ctx, T, P, Message, thorough: bool) -> None:
+    """One-digit corruptions of real frames, systematically: for one log line per (verb, code, length) (all lines in the thorough tier) every digit
+    of the three address fields is set to every other decimal digit and every payload digit to boundary / random hex digits; whatever is still
+    delivered as a packet goes through Message(): only the invalid-packet error may leave it."""
+    rng = ctx.rng
+    seen, n = set(), 0
+    for _, _, line in corpus.log_lines():
+        line = line.split("#")[0].split("*")[0].split("<")[0].rstrip()      # the frame itself: no comment / error / hint
+        f = line.split()
+        if len(f) < 8 or not re.fullmatch(r"[0-9A-F]+", f[-1]):
+            continue
+        key = (f[1] if f[1] in ("I", "RQ", "RP", "W") else f[0], f[-3], f[-2])
+        if not thorough and key in seen:
+            continue
+        seen.add(key)
+        pay0 = line.rfind(f[-1])
+        for pos, ch in enumerate(line):
+            in_addr = ch.isdigit() and pos < pay0 - 9 and ":" in line[max(0, pos - 9):pos + 9] and line[max(0, pos - 3):pos + 1].count(" ") <= 1
+            if pos >= pay0 and ch in "0123456789ABCDEF":
+                alts = {"0", "4", "7", "8", "F", rng.choice("0123456789ABCDEF"), rng.choice("0123456789ABCDEF")} - {ch}
+            elif in_addr:
+                alts = set("0123456789") - {ch}
+            else:
+                continue
+            for a in sorted(alts):
+                m = line[:pos] + a + line[pos + 1:]
+                n += 1
+                kind, val = impl_frame_read(T, P, "2024-01-01T12:00:00.000000", m)
+                if kind == "escape":
+                    ctx.violation(f"escape:{val}@frame_read", f"{val} escapes the receive path (not PacketInvalid/ValueError)", {"line": m, "dtm": "2024-01-01T12:00:00.000000"})
+                elif kind == "deliver":
+                    try:
+                        Message(val)
+                    except Exception as err:  # noqa: BLE001
+                        if type(err).__name__ not in ALLOWED[:3]:
+                            ctx.violation(f"escape:{type(err).__name__}@Message", f"{type(err).__name__} escapes Message(pkt)", {"line": m, "from": line})
+    ctx.dist["digit-sweep:lines"] += len(seen)
+    ctx.dist["digit-sweep:mutants"] += n
+    ctx.evaluations += n
+
+
 def impl_frame_read(T, P, dtm_str: str, line: str):
     """Drive the real _ReadTransport._frame_read; classify what happened."""
     got = []
@@ -132,6 +173,7 @@ def run(ctx: Ctx) -> None:
     ]
     built = ctx.build("C01", THEOREMS)
 
+    digit_sweep(ctx, T, P, Message, thorough)
     # ------------------------------------------------------------ X2/O2: one line at a time
     lines = gen_lines(ctx, 6000 if thorough else 1500)
     impl_show, cases = [], []
